@@ -1,11 +1,253 @@
-(* C11: the decision constants re-read from katdal/categorical.py (Gen/Generated.v) have the values that
-   Model/Categorical.v hard-wires (searchsorted sides, match_dist default and comparison, diff > 0, allow_repeats). *)
-From Coq Require Import ZArith List Bool.
-From KV Require Import Gen.Generated.
-Open Scope Z_scope.
+(* C11: the tie between katdal/categorical.py and Model/Categorical.v through the translator.
+
+   Part 1 (round 1): the decision constants cat_* have the values the model hard-wires.
+   Part 2 (round 2): the statement-by-statement template match of harness/vh/items/c11.py emits every comparison
+   operator, arithmetic operator, integer constant, searchsorted side, default argument and numpy reduction name
+   of the mirrored functions as catg_* definitions.  Here the decision expressions of the source are written
+   down again AS THE SOURCE HAS THEM (Python integers = Z, the generated operators and constants in the places
+   where the source has them) -- lookup_g, add_g, remove_g, initf_g, part_g, rr_g -- and proved equal, for all
+   arguments, to the functions of the Gallina model that the C11 theorems are about.  An edit of an operator or
+   constant in the source changes a catg_* definition and one of these proofs no longer checks; any other edit of
+   a mirrored function is refused by the translator.  (The definitions live here and not under Model/ so that a
+   refused source never stops the extracted model from building.) *)
+From Coq Require Import ZArith List Bool Arith Lia.
+From KV Require Import Base.Sx Model.Categorical Model.CategoricalX Gen.Generated Proofs.CategoricalP
+  Proofs.CategoricalXP Proofs.CategoricalXPartP.
+Import ListNotations.
 
 Lemma cat_constants_ok :
   cat_lookup_side_right = true /\ cat_add_side_left = true /\ cat_partition_side_right = true /\
-  cat_match_dist_default = 1 /\ cat_unmatched_is_gt = true /\ cat_align_keeps_increasing = true /\
+  cat_match_dist_default = 1%Z /\ cat_unmatched_is_gt = true /\ cat_align_keeps_increasing = true /\
   cat_allow_repeats_default = false /\ cat_repeats_removed_unless_allowed = true.
 Proof. repeat split; reflexivity. Qed.
+
+Open Scope nat_scope.
+
+(* numpy searchsorted on a sorted array *)
+Definition ss (right : bool) (l : list nat) (p : nat) : nat := if right then count_le l p else count_lt l p.
+
+Section Mirror.
+Context {V : Type} (veqb : V -> V -> bool).
+Notation cdV := (@cd V).
+
+(* _lookup:  preceding_events = events.searchsorted(dumps, side=S) <op> D
+             if any(preceding_events <lo> L) or any(preceding_events <hi> len(indices)): raise IndexError *)
+Definition lookup_g (c : cdV) (p : nat) : option nat :=
+  let k := catg_lookup_dec_op (Z.of_nat (ss catg_lookup_side_right (ev c) p)) catg_lookup_dec in
+  if catg_lookup_lo_cmp k catg_lookup_lo || catg_lookup_hi_cmp k (Z.of_nat (length (idx c))) then None
+  else nth_error (idx c) (Z.to_nat k).
+
+Lemma lookup_g_ok (c : cdV) p : lookup_g c p = lookup c p.
+Proof.
+  unfold lookup_g, lookup, ss, catg_lookup_dec_op, catg_lookup_side_right, catg_lookup_dec, catg_lookup_lo_cmp,
+    catg_lookup_lo, catg_lookup_hi_cmp.
+  set (k := count_le (ev c) p). set (n := length (idx c)).
+  destruct (Z.ltb_spec (Z.of_nat k - 1) 0), (Nat.eqb_spec k 0); simpl; try lia; auto.
+  destruct (Z.leb_spec (Z.of_nat n) (Z.of_nat k - 1)), (Nat.leb_spec n (k - 1)); try lia; auto.
+  f_equal. lia.
+Qed.
+
+(* add:  event_index = events.searchsorted(event, side=S)
+         after = event_index <op> I if events[event_index] <cmp> event else event_index *)
+Definition add_after_g (evs : list nat) (k e : nat) : option nat :=
+  match nth_error evs k with
+  | None => None                         (* events[event_index]: IndexError *)
+  | Some x => Some (Z.to_nat (if catg_add_coincide_cmp (Z.of_nat x) (Z.of_nat e)
+                              then catg_add_after_op (Z.of_nat k) catg_add_inc else Z.of_nat k))
+  end.
+Definition add_g (c : cdV) (e : nat) (val : option V) : option cdV :=
+  let '(uv', vi) :=
+    match val with
+    | Some v => match index_of veqb v (uv c) with
+                | Some i => (uv c, Some i)
+                | None => (uv c ++ [v], Some (length (uv c)))
+                end
+    | None => (uv c, lookup_g c e)
+    end in
+  match vi with
+  | None => None
+  | Some vi =>
+      let k := ss catg_add_side_right (ev c) e in
+      match add_after_g (ev c) k e with
+      | None => None
+      | Some after => Some (mk uv' (firstn k (idx c) ++ [vi] ++ skipn after (idx c))
+                                   (firstn k (ev c) ++ [e] ++ skipn after (ev c)))
+      end
+  end.
+
+Lemma add_g_ok (c : cdV) e val : add_g c e val = add veqb c e val.
+Proof.
+  unfold add_g, add, add_after_g, ss, catg_add_side_right, catg_add_coincide_cmp, catg_add_after_op, catg_add_inc.
+  rewrite lookup_g_ok.
+  destruct (match val with
+            | Some v => match index_of veqb v (uv c) with
+                        | Some i => (uv c, Some i) | None => (uv c ++ [v], Some (length (uv c))) end
+            | None => (uv c, lookup c e) end) as [uv' [vi|]]; [|reflexivity].
+  destruct (nth_error (ev c) (count_lt (ev c) e)) as [x|]; [|reflexivity].
+  replace (Z.to_nat (if (Z.of_nat x =? Z.of_nat e)%Z then (Z.of_nat (count_lt (ev c) e) + 1)%Z
+                     else Z.of_nat (count_lt (ev c) e)))
+    with (if x =? e then S (count_lt (ev c) e) else count_lt (ev c) e); [reflexivity|].
+  destruct (Z.eqb_spec (Z.of_nat x) (Z.of_nat e)), (Nat.eqb_spec x e); lia.
+Qed.
+
+(* remove:  keep = indices <cmp> index;  remap = arange(M);  remap[index:] -= D;  indices = remap[indices[keep]] *)
+Definition remove_g (c : cdV) (v : V) : cdV :=
+  match index_of veqb v (uv c) with
+  | None => c
+  | Some j =>
+      let kept := filter (fun p => catg_rm_keep_cmp (Z.of_nat (snd p)) (Z.of_nat j))
+                         (combine (removelast (ev c)) (idx c)) in
+      mk (firstn j (uv c) ++ skipn (S j) (uv c))
+         (map (fun p => Z.to_nat (if (Z.of_nat j <=? Z.of_nat (snd p))%Z
+                                  then (Z.of_nat (snd p) - catg_rm_dec)%Z else Z.of_nat (snd p))) kept)
+         (map fst kept ++ [ndumps c])
+  end.
+
+Lemma remove_g_ok (c : cdV) v : remove_g c v = remove veqb c v.
+Proof.
+  unfold remove_g, remove, catg_rm_keep_cmp, catg_rm_dec. destruct (index_of veqb v (uv c)) as [j|]; [|reflexivity].
+  assert (F : forall l : list (nat * nat),
+            filter (fun p => negb (Z.of_nat (snd p) =? Z.of_nat j)%Z) l = filter (fun p => negb (snd p =? j)) l).
+  { intros l. apply filter_ext. intros p. destruct (Z.eqb_spec (Z.of_nat (snd p)) (Z.of_nat j)), (Nat.eqb_spec (snd p) j); auto; lia. }
+  rewrite F. f_equal. apply map_ext. intros p.
+  destruct (Z.leb_spec (Z.of_nat j) (Z.of_nat (snd p))), (Nat.leb_spec j (snd p)); lia.
+Qed.
+
+(* partition:  initial_indices = indices[(events.searchsorted(segments[:-1], side=S) <op> D).clip(LO, len(events) <op> HI)]
+   (numpy clip = minimum(hi, maximum(x, lo))) *)
+Definition initf_g (c : cdV) (s : nat) : nat :=
+  let events := removelast (ev c) in
+  let x := catg_part_dec_op (Z.of_nat (ss catg_part_side_right events s)) catg_part_dec in
+  let hi := catg_clip_hi_op (Z.of_nat (length events)) catg_clip_hi in
+  nth (Z.to_nat (Z.min hi (Z.max x catg_clip_lo))) (idx c) 0.
+
+Lemma initf_g_ok (c : cdV) s : initf_g c s = initf c s.
+Proof.
+  unfold initf_g, initf, ss, catg_part_dec_op, catg_part_side_right, catg_part_dec, catg_clip_hi_op, catg_clip_hi,
+    catg_clip_lo. f_equal. lia.
+Qed.
+
+(*   segment_events = (events <lo> start) & (events <hi> end)
+     if len(cat_data.events) <cmp> Z or cat_data.events[0] <cmp> F: insert the initial event *)
+Definition part_g (c : cdV) (start end_ init : nat) : cdV :=
+  let sel := filter (fun p => catg_part_lo_cmp (Z.of_nat (fst p)) (Z.of_nat start)
+                              && catg_part_hi_cmp (Z.of_nat (fst p)) (Z.of_nat end_))
+                    (combine (removelast (ev c)) (idx c)) in
+  let evs := map (fun p => fst p - start) sel in
+  let ids := map snd sel in
+  if catg_part_empty_cmp (Z.of_nat (length evs)) catg_part_empty
+     || catg_part_first_cmp (Z.of_nat (hd 0 evs)) catg_part_first
+  then mk (uv c) (init :: ids) (0 :: evs ++ [end_ - start])
+  else mk (uv c) ids (evs ++ [end_ - start]).
+
+Lemma part_g_ok (c : cdV) a b init : part_g c a b init = part c a b init.
+Proof.
+  unfold part_g, part, catg_part_lo_cmp, catg_part_hi_cmp, catg_part_empty_cmp, catg_part_empty,
+    catg_part_first_cmp, catg_part_first.
+  assert (F : forall l : list (nat * nat),
+            filter (fun p => (Z.of_nat a <=? Z.of_nat (fst p))%Z && (Z.of_nat (fst p) <? Z.of_nat b)%Z) l
+            = filter (fun p => (a <=? fst p) && (fst p <? b)) l).
+  { intros l. apply filter_ext. intros p.
+    destruct (Z.leb_spec (Z.of_nat a) (Z.of_nat (fst p))), (Nat.leb_spec a (fst p)); try lia;
+    destruct (Z.ltb_spec (Z.of_nat (fst p)) (Z.of_nat b)), (Nat.ltb_spec (fst p) b); try lia; reflexivity. }
+  rewrite F. destruct (map (fun p : nat * nat => fst p - a) _) as [|[|n] t]; reflexivity.
+Qed.
+
+Definition partition_g (c : cdV) (segs : list nat) : list cdV :=
+  map (fun q => part_g c (fst q) (snd q) (initf_g c (fst q))) (combine (removelast segs) (tl segs)).
+Lemma partition_g_ok (c : cdV) segs : partition_g c segs = partition c segs.
+Proof.
+  unfold partition_g. rewrite partition_initf. apply map_ext. intros q. rewrite part_g_ok, initf_g_ok. reflexivity.
+Qed.
+
+(* remove_repeats:  changes = nonzero([FIRST] + diff(indices).tolist()) *)
+Fixpoint flags_from (prev : option nat) (ix : list nat) : list bool :=
+  match ix with
+  | [] => []
+  | i :: t => (match prev with
+               | None => negb (catg_rr_first =? 0)%Z
+               | Some j => negb (Z.of_nat i - Z.of_nat j =? 0)%Z
+               end) :: flags_from (Some i) t
+  end.
+Definition rr_g (c : cdV) : option cdV :=
+  match idx c with
+  | [] => None
+  | _ => let kept := map snd (filter fst (combine (flags_from None (idx c)) (combine (ev c) (idx c)))) in
+         Some (mk (uv c) (map snd kept) (map fst kept ++ [ndumps c]))
+  end.
+
+Lemma flags_rr : forall (ix evs : list nat) prev, length ix <= length evs ->
+  map snd (filter fst (combine (flags_from prev ix) (combine evs ix))) = rr_aux prev (combine evs ix).
+Proof.
+  induction ix as [|i ix IH]; intros evs prev L. { destruct evs; reflexivity. }
+  destruct evs as [|e evs]; [simpl in L; lia|]. cbn [combine flags_from rr_aux].
+  assert (L' : length ix <= length evs) by (simpl in L; lia).
+  destruct prev as [j|].
+  - destruct (Z.eqb_spec (Z.of_nat i - Z.of_nat j) 0), (Nat.eqb_spec i j); try lia; cbn [negb filter fst map snd];
+      rewrite IH by auto; reflexivity.
+  - unfold catg_rr_first. cbn [Z.eqb negb filter fst map snd]. rewrite IH by auto. reflexivity.
+Qed.
+
+Lemma rr_g_ok (c : cdV) : length (idx c) <= length (ev c) -> rr_g c = remove_repeats c.
+Proof. intros L. unfold rr_g, remove_repeats. destruct (idx c) eqn:E; [reflexivity|]. rewrite <- E in *. rewrite flags_rr by auto. reflexivity. Qed.
+
+End Mirror.
+
+(* _bool_per_dump with the initial value of the SOURCE (np.zeros -> false; np.empty is refused by the translator) *)
+Lemma cmp_full_g {V} (dflt : V) (c : @cd V) (f : V -> bool) : WF c ->
+  bool_per_dump catg_bpd_init c f = spec_cmp_full (expand_full dflt c) f /\
+  length (bool_per_dump catg_bpd_init c f) = ndumps c /\
+  bool_per_dump catg_bpd_init c f = repeat false (hd 0 (ev c)) ++ cmp c f.
+Proof.
+  intros W. change catg_bpd_init with false. split; [exact (cmp_full_spec dflt c f W)|]. split.
+  - rewrite (cmp_full_spec dflt c f W). unfold spec_cmp_full. rewrite map_length. exact (expand_full_length dflt c W).
+  - exact (bool_per_dump_spec c false f W).
+Qed.
+
+(* the remaining decision pieces, pointwise / as values *)
+Lemma catg_pointwise :
+  (forall a b : nat, catg_mask_len_cmp (Z.of_nat a) (Z.of_nat b) = (a =? b)) /\            (* mask iff len(key) == N *)
+  (forall m d : nat, catg_unmatched_cmp (Z.of_nat m) (Z.of_nat d) = (d <? m)) /\           (* unmatched iff min dist > match_dist *)
+  (forall a b : nat, catg_align_keep_cmp (Z.of_nat b - Z.of_nat a) catg_align_zero = (a <? b)) /\   (* keep iff diff(events) > 0 *)
+  (forall n : nat, catg_cc_single_cmp (Z.of_nat n) catg_cc_single = (n =? 1)) /\           (* one part: returned as is *)
+  (forall n : Z, catg_cc_next_op n catg_cc_next = (n + 1)%Z) /\                            (* inverse_splits[n + 1] *)
+  catg_match_dist = 1%Z /\ catg_um_axis = 1%Z /\ catg_um_reduce_is_min = true /\
+  catg_align_axis = 0%Z /\ catg_align_reduce_is_argmin = true /\
+  catg_bpd_init = false /\ catg_allow_repeats_default = false /\ catg_uio_inverse_default = false /\
+  catg_add_value_default_is_none = true /\
+  catg_cmp_methods = [0; 1; 2; 3; 4; 5]%Z /\ catg_wrapper_cmp_methods = [0; 1; 2; 3; 4; 5]%Z.
+Proof.
+  unfold catg_mask_len_cmp, catg_unmatched_cmp, catg_align_keep_cmp, catg_align_zero, catg_cc_single_cmp,
+    catg_cc_single, catg_cc_next_op, catg_cc_next.
+  repeat split; try reflexivity; intros.
+  - destruct (Z.eqb_spec (Z.of_nat a) (Z.of_nat b)), (Nat.eqb_spec a b); auto; lia.
+  - destruct (Z.ltb_spec (Z.of_nat d) (Z.of_nat m)), (Nat.ltb_spec d m); auto; lia.
+  - destruct (Z.ltb_spec 0 (Z.of_nat b - Z.of_nat a)), (Nat.ltb_spec a b); auto; lia.
+  - destruct (Z.eqb_spec (Z.of_nat n) 1), (Nat.eqb_spec n 1); auto; lia.
+Qed.
+
+(* the model's functions that use these pieces, written with the generated ones *)
+Lemma catg_model_uses {V} (veqb : V -> V -> bool) (dflt : V) :
+  (forall (c : @cd V) m, getitem dflt c (KMask m) =
+     if catg_mask_len_cmp (Z.of_nat (length m)) (Z.of_nat (ndumps c))
+     then glist dflt c (map Z.of_nat (true_positions m 0))
+     else glist dflt c (map (fun b : bool => if b then 1%Z else 0%Z) m)) /\
+  (forall (c : @cd V) segs, add_unmatched veqb c segs (Z.to_nat catg_match_dist) =
+     fold_left (fun c s => match add veqb c s None with Some c' => c' | None => c end)
+       (filter (fun s => catg_unmatched_cmp (Z.of_nat (list_min (map (absd s) (ev c)))) catg_match_dist) segs) c) /\
+  (forall (parts : list (@cd V)),
+     concatenate veqb dflt parts catg_allow_repeats_default =
+     match parts with
+     | [] => None
+     | p :: _ => if catg_cc_single_cmp (Z.of_nat (length parts)) catg_cc_single then Some p
+                 else concatenate veqb dflt parts false
+     end).
+Proof.
+  destruct catg_pointwise as (P1 & P2 & _ & P4 & _ & P6 & _).
+  split; [|split].
+  - intros c m. cbn [getitem]. rewrite P1. reflexivity.
+  - intros c segs. unfold add_unmatched. rewrite P6. f_equal. apply filter_ext. intros s.
+    change 1%Z with (Z.of_nat 1). rewrite P2. reflexivity.
+  - intros parts. unfold catg_allow_repeats_default. destruct parts as [|p [|q t]]; try reflexivity.
+    rewrite P4. reflexivity.
+Qed.
